@@ -345,15 +345,26 @@ def r_mapkey(ctx, rep):
         return
     key = "%s|R-MAPKEY" % fn.name
     ok = False
+    wrong = None
     for lp in walk_k(fn.body, "Loop"):
         for i in walk_k(lp, "If"):
             neg = [u for u in walk_k(i["cond"], "Unary") if u["op"] == "!" and any(m["name"] == "is_empty" for m in walk_k(u, "MethodCall"))]
             if neg and any(r.get("k") == "Ret" for r in walk(i["then"])):
-                ok = True
+                # the emptiness tested must be the cell's (an element of self.cells), not e.g. the header's
+                for u in neg:
+                    for m in walk_k(u, "MethodCall"):
+                        if m["name"] != "is_empty":
+                            continue
+                        on_cells = any(x.get("k") == "Field" and x.get("name") == "cells" for x in walk(m["recv"]))
+                        c = callee(m) or ""
+                        if on_cells and "String" not in c and "::str::" not in c:
+                            ok = True
+                        else:
+                            wrong = (loc(m), c)
     if ok:
         rep.holds("R-MAPKEY", key, loc(fn.raw), "keys are produced inside a loop that skips cells for which is_empty() holds")
     else:
-        rep.violation("R-MAPKEY", key, loc(fn.raw), "next_key_seed does not skip empty cells in a loop: an empty cell would end the record (or be presented as a value) instead of being absent, so later fields of the row are lost")
+        rep.violation("R-MAPKEY", key, wrong[0] if wrong else loc(fn.raw), "next_key_seed does not skip empty cells in a loop%s: an empty cell would end the record (or be presented as a value) instead of being absent, so later fields of the row are lost" % ((" (the is_empty() test at %s is %s, not the emptiness of an element of self.cells)" % wrong) if wrong else ""))
 
 
 def _is_trim(c):
